@@ -61,6 +61,12 @@ def run(prop, tier, seed, repo, jobs):
         pin = {'deps': {2: [0, 1]}, 'roots': [2]}
         only = ('stays_alive_iff_service_requested', 'single_instance', 'dependency_services_are_running_when_a_build_starts')
         cases.append(('C11', ('build', 'service', 'aggregate'), False, 26, 8, seed, True, 300, repo, tier, 600, pin, only))
+    if prop == 'C17':
+        # one fixed three-target graph: a build (the only root) over a build and a service that do not depend on each other --
+        # the smallest graph in which two independent targets are in progress at the same time
+        pin = {'deps': {2: [0, 1]}, 'roots': [2]}
+        only = ('nothing_waits_for_a_non_dependency',)
+        cases.append(('C17', ('build', 'service', 'build'), False, 26, 8, seed, True, 300, repo, tier, 600, pin, only))
     L = 10 if tier == 'quick' else 14
     locals_ = [(prop, kind, watch, L, repo) for (kind, watch) in proto.LOCAL_PLAN.get(prop, [])]
     sysq_cases = []
